@@ -3,9 +3,14 @@ package main
 // Exhaustive / boundary parts of the certificate stream, per focus.
 
 import (
+	"bytes"
+	"encoding/pem"
 	"fmt"
+	"math/big"
 	"os"
 	"strings"
+
+	"github.com/wokdav/gopki/generator/cert"
 )
 
 func batch(tag string, root Cfg, subs []Cfg) { batchP(tag, root, subs, nil) }
@@ -31,6 +36,9 @@ func batchP(tag string, root Cfg, subs []Cfg, profs []*Profile) {
 			}
 		}
 		e := entity{name: fmt.Sprintf("s%03d", i), cfg: s, json: i%5 == 4}
+		if kf, ok := suppliedKeys[s.Subject]; ok {
+			e.keyfile, e.keyPoint = kf.file, kf.point
+		}
 		for _, p := range profs {
 			if p.Name == s.Profile {
 				e.profile = p
@@ -52,6 +60,33 @@ func batchP(tag string, root Cfg, subs []Cfg, profs []*Profile) {
 
 var batchFailed = -1
 
+// private keys supplied as pre-existing artifact files, by subject of the entity that uses them
+var suppliedKeys = map[string]struct{ file, point []byte }{}
+
+// a subordinate whose key is supplied: the first scalar (counting up from [start]) whose public point has a leading zero octet in
+// X (which = 0) or in Y (which = 1) - about one key in 256 has one, and encoders that drop or misplace it only fail there
+func zeroCoordinateSub(curve string, which int, start int64) Cfg {
+	c := curveByName[curve]
+	bl := (c.Params().BitSize + 7) / 8
+	for d := start; ; d++ {
+		k := ecKey(curve, big.NewInt(d))
+		co := k.X
+		if which == 1 {
+			co = k.Y
+		}
+		if len(co.Bytes()) < bl {
+			der, _ := cert.MarshalPKCS8PrivateKey(k)
+			var o bytes.Buffer
+			pem.Encode(&o, &pem.Block{Type: "PRIVATE KEY", Bytes: der})
+			s := plainSub(int(d))
+			s.Subject = fmt.Sprintf("CN=supplied %s key %d coordinate %d", curve, d, which)
+			s.KeyAlg = curve
+			suppliedKeys[s.Subject] = struct{ file, point []byte }{o.Bytes(), pointBytes(k.Curve, k.X, k.Y)}
+			return s
+		}
+	}
+}
+
 func plainRoot() Cfg {
 	return Cfg{Subject: "CN=Root, O=Acme", KeyAlg: "P-256", SigAlg: "ECDSAwithSHA256", Validity: Validity{From: "2020-01-01", Until: "2040-01-01"}}
 }
@@ -68,6 +103,7 @@ func exhaustiveCert(g *gen) {
 	}
 	switch g.focus {
 	case "c02":
+		batch("c02-zero-coordinate", plainRoot(), []Cfg{zeroCoordinateSub("P-224", 0, 2), zeroCoordinateSub("brainpoolP256r1", 1, 2), zeroCoordinateSub("brainpoolP384t1", 0, 2), zeroCoordinateSub("P-521", 1, 2)})
 		var subs []Cfg
 		for _, n := range []int{1, 63, 64, 126, 127, 128, 129, 254, 255, 256, 257, 1000} {
 			s := plainSub(n)
@@ -199,6 +235,14 @@ func exhaustiveCert(g *gen) {
 			batchP("c04-late", slowRoot, late, []*Profile{{Name: "plate", Validity: Validity{Until: "2044-04-04"}}})
 		}
 	case "c05":
+		{
+			// supplied keys whose public point has a leading zero octet in one coordinate, on every curve
+			var subs []Cfg
+			for _, cv := range ecKeys {
+				subs = append(subs, zeroCoordinateSub(cv, 0, 2), zeroCoordinateSub(cv, 1, 2))
+			}
+			batch("c05-zero-coordinate", plainRoot(), subs)
+		}
 		keys := allKeys
 		if !thorough() {
 			keys = allKeys[:13] // RSA-8192 only in the thorough tier
